@@ -235,7 +235,54 @@ def run(ctx):
                           {**wit, 'typed': short(x, 200), 'into_data(x, U)': short(d.val, 200),
                            'members_accepting_x': short(candidates, 300)}, mech='serialised-by-non-accepting-member')
 
+    holders = {}
+
+    def check_through_constructor(i, uty, U, v):
+        """The same union as a dataclass field, the value handed to the checked constructor: same verdict, same member, same image."""
+        from ..entrypoints import _only_plain_carriers
+        if not _only_plain_carriers(v):
+            return
+        H = holders.get(id(U))
+        if H is None:
+            try:
+                H = type(f"KU{next(_serial)}", (env.PaneBase,), {'__annotations__': {'alpha': U, 'n': int}, 'n': 0, '__module__': __name__})
+            except Exception:
+                return
+            holders.clear()
+            holders[id(U)] = H
+        ref = observe(env.from_data, v, U)
+        got = observe(H, v)
+        if ref.kind == 'escape' or got.kind == 'escape':
+            return
+        ctx.count('constructor_field_checked')
+        ok = ref.kind == got.kind and (ref.kind != 'value' or (deep_typed_eq(ref.val, got.val.alpha)[0] and deep_typed_eq(got.val.alpha, ref.val)[0]))
+        if not ok:
+            ctx.violation('leftmost-member-wins', 'main', i, {'union': describe(uty), 'value': short(v, 200), 'from_data(v, U)': ref.brief(),
+                                                              'Cls(alpha=v) with alpha: U': got.brief()}, mech='constructor-field:differs-from-from_data')
+
+    def check_native_serialise(i, rng, uty, U):
+        """Values built natively for each member (not produced through the union): the union can write whatever its own member can."""
+        from .. import native
+        members_py = t.get_args(U)
+        if len(members_py) != len(uty.a):
+            return
+        for k, m in enumerate(uty.a):
+            try:
+                x = native.native(m, rng)
+            except Exception:
+                continue
+            own = observe(env.into_data, x, members_py[k])
+            if own.kind != 'value':
+                continue
+            d = observe(env.into_data, x, U)
+            ctx.count('native_serialise_checked')
+            if d.kind != 'value':
+                ctx.violation('serialise-uses-accepting-member', 'main', i, {'union': describe(uty), 'typed': short(x, 200), 'its_member': k,
+                                                                             'member_writes': own.brief(), 'union_into_data': d.brief()}, mech='into_data-raised:native-member-value')
+                return
+
     def body(i, rng, uty, U):
+        check_native_serialise(i, rng, uty, U)
         vals = []
         for m in uty.a:
             vals.append(genval.member(m, rng))
@@ -246,6 +293,8 @@ def run(ctx):
         vals.append(genval.mutate(rng.choice(vals), rng))
         for v in vals:
             check_union(i, rng, uty, U, v)
+            if rng.random() < 0.3:
+                check_through_constructor(i, uty, U, v)
 
     drive.for_each_case(ctx, 'main', ctx.budget, body, gen=gen_union)
 
